@@ -1,6 +1,7 @@
 (* Extraction of the executable models to OCaml (ExtrOcamlBasic only). *)
 Require Import ExtrOcamlBasic.
-Require Import NS.theories.Generated NS.theories.Bump.
+Require Import NS.theories.Generated NS.theories.Bump NS.theories.Pool.
 Extraction Language OCaml.
 Extraction "extract/Model.ml"
-  Bump.ctrace Bump.cinit Bump.cstep Bump.observe.
+  Bump.ctrace Bump.cinit Bump.cstep Bump.observe
+  Pool.pstep Pool.pool_new Pool.pcounters Pool.sstep Pool.pset_new Pool.class_counters Pool.size_class.
